@@ -16,6 +16,9 @@ fn drop_thread(c: &Case, t: usize) -> Case {
     let mut n = c.clone();
     n.threads.remove(t);
     n.churn.remove(t);
+    if t < n.jumps.len() {
+        n.jumps.remove(t);
+    }
     let map = |x: u32| if (x as usize) > t { x - 1 } else { x };
     n.switches = c
         .switches
@@ -41,6 +44,21 @@ fn drop_calls(c: &Case, t: usize, a: usize, b: usize) -> Case {
             }
         }
     }
+    if t < n.jumps.len() {
+        n.jumps[t] = c.jumps[t]
+            .iter()
+            .filter_map(|(k, dm, dr)| {
+                let k = *k as usize;
+                if k >= b {
+                    Some(((k - (b - a)) as u32, *dm, *dr))
+                } else if k >= a {
+                    Some((a as u32, *dm, *dr))
+                } else {
+                    Some((k as u32, *dm, *dr))
+                }
+            })
+            .collect();
+    }
     n.churn[t] = c.churn[t]
         .iter()
         .filter_map(|k| {
@@ -63,13 +81,32 @@ fn merge_all_threads(c: &Case, order: &[usize]) -> Case {
     for t in order {
         calls.extend(c.threads[*t].iter().cloned());
     }
-    Case { threads: vec![calls], churn: vec![vec![]], start: 0, switches: vec![] }
+    // clock jumps keep their place in the concatenated call list
+    let mut jumps: Vec<(u32, i64, i64)> = Vec::new();
+    let mut off = 0u32;
+    for t in order {
+        if let Some(js) = c.jumps.get(*t) {
+            for (k, dm, dr) in js {
+                jumps.push((k + off, *dm, *dr));
+            }
+        }
+        off += c.threads[*t].len() as u32;
+    }
+    Case { threads: vec![calls], churn: vec![vec![]], start: 0, switches: vec![], jumps: vec![jumps] }
 }
 
 fn merge_two(c: &Case, a: usize, b: usize) -> Case {
     // b's calls run after a's, on a's thread; switches of both threads are dropped
     let mut n = drop_thread(c, b);
     let a2 = if b < a { a - 1 } else { a };
+    let off = n.threads[a2].len() as u32;
+    if let Some(js) = c.jumps.get(b) {
+        if a2 < n.jumps.len() {
+            for (k, dm, dr) in js {
+                n.jumps[a2].push((k + off, *dm, *dr));
+            }
+        }
+    }
     n.threads[a2].extend(c.threads[b].iter().cloned());
     n.switches.retain(|s| s.thread as usize != a2 && s.to as usize != a2);
     n
@@ -303,6 +340,33 @@ pub fn minimise(
                     cands.push(c);
                 }
             }
+            if try_batch(&mut best, &mut best_res, &mut st, cands, oc) {
+                progress = true;
+            } else {
+                break;
+            }
+        }
+        // T5b: drop clock jumps
+        loop {
+            if over(&st) {
+                break;
+            }
+            let mut cands = Vec::new();
+            if best.jumps.iter().any(|j| !j.is_empty()) {
+                let mut c = best.clone();
+                for j in c.jumps.iter_mut() {
+                    j.clear();
+                }
+                cands.push(c);
+            }
+            for t in 0..best.jumps.len() {
+                for k in 0..best.jumps[t].len() {
+                    let mut c = best.clone();
+                    c.jumps[t].remove(k);
+                    cands.push(c);
+                }
+            }
+            cands.truncate(128);
             if try_batch(&mut best, &mut best_res, &mut st, cands, oc) {
                 progress = true;
             } else {
